@@ -65,6 +65,9 @@ struct PeerInner {
     sent: BTreeMap<&'static str, u64>,
     connects: u64,
     refuse_stream_connects: u64,
+    /// from this connect on (1-based; 0: never) a stream connect takes this long
+    slow_connect_from: u64,
+    slow_connect_ms: u64,
     /// when the first copy of each request reached the peer (virtual clock)
     first_seen: HashMap<Vec<u8>, tokio::time::Instant>,
 }
@@ -337,9 +340,16 @@ impl AsyncConnect for StConnect {
     fn connect(&self) -> Self::Fut {
         let peer = self.peer.clone();
         Box::pin(async move {
-            {
+            let slow = {
                 let mut g = peer.inner.lock().unwrap();
                 g.connects += 1;
+                if g.slow_connect_from > 0 && g.connects >= g.slow_connect_from { g.slow_connect_ms } else { 0 }
+            };
+            if slow > 0 {
+                tokio::time::sleep(Duration::from_millis(slow)).await;
+            }
+            {
+                let mut g = peer.inner.lock().unwrap();
                 if g.refuse_stream_connects > 0 {
                     g.refuse_stream_connects -= 1;
                     return Err(io::Error::new(io::ErrorKind::ConnectionRefused, "refused"));
@@ -481,6 +491,125 @@ struct Done {
     done_at: tokio::time::Instant,
 }
 
+/// A connection attempt that takes long must not hold up the connections that exist (multiplexed stream
+/// transport): request A is in flight on the first connection, answered by the peer after a moment; request B fails
+/// on its own (it is longer than a stream message can be) and makes the transport open another connection, whose
+/// connect takes half a minute. A's answer has arrived meanwhile: A completes with it, in time.
+fn slow_connect_case(c: &mut Ctx, fam: &str, idx: u64) {
+    let mut rng = c.case_rng(fam, idx);
+    let mk = |l: String| {
+        let mut v = vec![l.len() as u8];
+        v.extend_from_slice(l.as_bytes());
+        v.extend_from_slice(b"\x04test\x00");
+        v
+    };
+    let n_a = rng.range(1, 4);
+    let names: Vec<Vec<u8>> = (0..n_a).map(|k| mk(format!("a{}s{}", k, idx))).collect();
+    let answer_after: Vec<u64> = (0..n_a).map(|_| rng.range(300, 1500) as u64).collect();
+    let mut scripts = HashMap::new();
+    for (nm, d) in names.iter().zip(&answer_after) {
+        scripts.insert(w::lower(nm), vec![vec![Act { delay_ms: *d, kind: Kind::Good }]]);
+    }
+    let connect_ms = rng.range(20_000, 40_000) as u64;
+    let peer = Arc::new(Peer { inner: Mutex::new(PeerInner { seen: vec![], scripts, attempts: HashMap::new(), recent: vec![], sent: BTreeMap::new(), connects: 0, refuse_stream_connects: 0, slow_connect_from: 2, slow_connect_ms: connect_ms, first_seen: HashMap::new() }), rng: Mutex::new(Rng::new(&[c.seed, idx, 16])), pipe: 1 << 16, burst_after: 0 });
+    let rt = tokio::runtime::Builder::new_current_thread().enable_all().start_paused(true).build().unwrap();
+    let peer2 = peer.clone();
+    let names2 = names.clone();
+    let big_after = rng.range(20, 200) as u64;
+    let ex = json!({"requests_in_flight": n_a, "answered_after_ms": answer_after, "second_connect_takes_ms": connect_ms, "oversized_request_after_ms": big_after});
+    let res = ctx::catch(|| {
+        rt.block_on(async move {
+            let mut mc = multi_stream::Config::default();
+            mc.set_response_timeout(Duration::from_secs(10));
+            let (conn, tr) = multi_stream::Connection::with_config(StConnect { peer: peer2.clone() }, mc);
+            tokio::spawn(tr.run());
+            let conn = Arc::new(conn);
+            let mut hs = Vec::new();
+            for qn in names2.iter() {
+                let conn = conn.clone();
+                let qn = qn.clone();
+                hs.push(tokio::spawn(async move {
+                    let t0 = tokio::time::Instant::now();
+                    let mut gr = conn.send_request(mk_request(&qn));
+                    let r = tokio::time::timeout(Duration::from_secs(120), gr.get_response()).await;
+                    (t0.elapsed(), r.map(|x| x.map(|m| m.as_slice().to_vec()).map_err(|e| format!("{}", e))).map_err(|_| ()))
+                }));
+            }
+            // the oversized request: more than 65535 octets of message
+            let connb = conn.clone();
+            let hb = tokio::spawn(async move {
+                tokio::time::sleep(Duration::from_millis(big_after)).await;
+                let mut mb = MessageBuilder::new_vec();
+                let mut q = mb.question();
+                q.push((Name::<Vec<u8>>::from_octets(b"\x03big\x04test\x00".to_vec()).unwrap(), Rtype::A)).unwrap();
+                let mut ad = q.additional();
+                for i in 0..300u32 {
+                    let rd = domain::base::rdata::UnknownRecordData::from_octets(Rtype::from_int(65280), vec![(i & 0xff) as u8; 250]).unwrap();
+                    ad.push((Name::<Vec<u8>>::root_vec(), domain::base::iana::Class::IN, domain::base::Ttl::from_secs(0), rd)).unwrap();
+                }
+                let Ok(rm) = RequestMessage::new(ad.into_message()) else { return None };
+                let mut gr = connb.send_request(rm);
+                Some(tokio::time::timeout(Duration::from_secs(300), gr.get_response()).await.map(|r| r.is_ok()))
+            });
+            let mut out = Vec::new();
+            for h in hs {
+                out.push(h.await.ok());
+            }
+            let b = hb.await.ok().flatten();
+            (out, b)
+        })
+    });
+    drop(rt);
+    let (out, b) = match res {
+        Ok(x) => x,
+        Err(pi) => {
+            c.violation(&format!("panic:{}", pi.site()), &format!("panic in the multi_stream client transport: {} at {}:{}", pi.msg, pi.file, pi.line), c.replay_of(fam, idx, ex));
+            return;
+        }
+    };
+    let connects = peer.inner.lock().unwrap().connects;
+    c.eval(&("slow-connect", n_a, connects.min(3), b.as_ref().map(|x| x.is_ok())));
+    if connects >= 2 {
+        c.count("slow_connect_cases_with_a_second_connect_pending", 1);
+    }
+    match b {
+        Some(Ok(true)) => {
+            c.violation("oversized-request-answered", "a request of more than 65535 octets over a stream transport got a response", c.replay_of(fam, idx, ex));
+            return;
+        }
+        Some(Err(_)) => {
+            c.violation("never-completes:multi_stream:oversized-request", "a request of more than 65535 octets never completed (300 s)", c.replay_of(fam, idx, ex));
+            return;
+        }
+        _ => {}
+    }
+    for (k, o) in out.iter().enumerate() {
+        match o {
+            Some((el, Ok(Ok(m)))) => {
+                let ok = w::parse_message(m).map(|pm| pm.questions.first().map(|q| w::lower(&q.name)) == Some(w::lower(&names[k]))).unwrap_or(false);
+                if !ok {
+                    c.violation("other-question:multi_stream", "a request in flight got another request's answer while a new connection was being set up", c.replay_of(fam, idx, ex));
+                    return;
+                }
+                // the peer answered after answer_after[k] ms; the response timeout is 10 s
+                if el.as_millis() as u64 > answer_after[k] + 5_000 {
+                    c.violation("completes-late:multi_stream:while-connecting", &format!("a request answered by the peer after {} ms completed after {} ms: the connection that carried it was not served while another connect ({} ms) was pending", answer_after[k], el.as_millis(), connect_ms), c.replay_of(fam, idx, ex));
+                    return;
+                }
+                c.count("slow_connect_requests_answered_in_time", 1);
+            }
+            Some((el, Ok(Err(e)))) => {
+                c.violation("honest-answer-lost:multi_stream:while-connecting", &format!("a request answered by the peer after {} ms failed after {} ms with {}: the connection that carried it was not served while another connect ({} ms) was pending", answer_after[k], el.as_millis(), e, connect_ms), c.replay_of(fam, idx, ex));
+                return;
+            }
+            _ => {
+                c.violation("never-completes:multi_stream:while-connecting", "a request in flight never completed (120 s) while another connect was pending", c.replay_of(fam, idx, ex));
+                return;
+            }
+        }
+    }
+}
+
 const TRANSPORTS: [&str; 6] = ["dgram", "stream", "multi_stream", "dgram_stream", "redundant", "load_balancer"];
 
 fn one_case(c: &mut Ctx, fam: &str, idx: u64, threads: bool) {
@@ -540,7 +669,7 @@ fn one_case(c: &mut Ctx, fam: &str, idx: u64, threads: bool) {
         scripts.insert(w::lower(nm), sc);
     }
     let refuse = if !clean && matches!(transport, "multi_stream" | "dgram_stream" | "redundant") && rng.chance(1, 4) { rng.range(1, 3) as u64 } else { 0 };
-    let peer = Arc::new(Peer { inner: Mutex::new(PeerInner { seen: vec![], scripts, attempts: HashMap::new(), recent: vec![], sent: BTreeMap::new(), connects: 0, refuse_stream_connects: refuse, first_seen: HashMap::new() }), rng: Mutex::new(Rng::new(&[c.seed, idx, 15])), pipe: *rng.pick(&[8usize, 13, 64, 1 << 16, 1 << 16]), burst_after: if burst { n } else { 0 } });
+    let peer = Arc::new(Peer { inner: Mutex::new(PeerInner { seen: vec![], scripts, attempts: HashMap::new(), recent: vec![], sent: BTreeMap::new(), connects: 0, refuse_stream_connects: refuse, slow_connect_from: 0, slow_connect_ms: 0, first_seen: HashMap::new() }), rng: Mutex::new(Rng::new(&[c.seed, idx, 15])), pipe: *rng.pick(&[8usize, 13, 64, 1 << 16, 1 << 16]), burst_after: if burst { n } else { 0 } });
     // net::client::stream measures its response timeout with std::time::Instant, which the paused tokio clock does not move:
     // the plain stream transport is exercised in real time, with every delay and timeout a tenth as long
     let real_time = transport == "stream" || threads;
@@ -876,6 +1005,15 @@ pub fn run(c: &mut Ctx) {
         ctx::slot_write(idx, &format!("{}|case", fam), &[]);
         long_connection_case(c, fam, idx);
     }
+    let fam = "slow-connect";
+    let total = c.total(200, 20_000);
+    for idx in c.cases(fam, total) {
+        if c.out_of_time() {
+            break;
+        }
+        ctx::slot_write(idx, &format!("{}|case", fam), &[]);
+        slow_connect_case(c, fam, idx);
+    }
     let fam = "scripts";
     let total = c.total(3_000, 300_000);
     for idx in c.cases(fam, total) {
@@ -886,7 +1024,7 @@ pub fn run(c: &mut Ctx) {
         one_case(c, fam, idx, false);
     }
     if !c.replaying() {
-        for k in ["requests_answered", "requests_failed", "header_only_errors_delivered", "ids_used_for_more_than_one_request", "tc_fallbacks_completed", "peer_sent:wrong-id", "peer_sent:questionless-answer", "peer_sent:wrong-question", "peer_sent:foreign-answer", "peer_sent:close", "cases:stream", "reused_idle_connection_cases", "burst_then_close_cases", "long_connection_requests", "threads_cases", "cases:multi_stream", "cases:redundant", "cases:load_balancer"] {
+        for k in ["requests_answered", "requests_failed", "header_only_errors_delivered", "ids_used_for_more_than_one_request", "tc_fallbacks_completed", "peer_sent:wrong-id", "peer_sent:questionless-answer", "peer_sent:wrong-question", "peer_sent:foreign-answer", "peer_sent:close", "cases:stream", "reused_idle_connection_cases", "burst_then_close_cases", "long_connection_requests", "threads_cases", "cases:multi_stream", "cases:redundant", "cases:load_balancer", "slow_connect_requests_answered_in_time", "slow_connect_cases_with_a_second_connect_pending"] {
             c.floor(k, 3);
         }
     }
